@@ -1,11 +1,12 @@
 # C64: stage list (what ./check C64 quick|thorough runs) and manifest text. Helpers gen()/enum()/hyp()/custom() come from props.py.
 SPEC = {'level': 'exploration',
- 'assumptions': ['in-process regtest node (ChainSim + NetSim), all peers relay by wtxid; honest peers answer every getdata for what they announced at once; attackers never '
+ 'assumptions': ['in-process regtest node (ChainSim + NetSim); attackers and honest peers relay by wtxid, plus optionally one honest txid-relay (pre-BIP339) peer; honest peers answer every getdata for what they announced at once; attackers never '
                  'announce the genuine wtxid themselves (a stalled request for it would be stalling, not malleation)',
                  'bounded liveness: the genuine tx must be in the mempool within 12 s + 64 s per attacker after the honest announcement (request delays 2 s + 2 s, one '
                  '60 s request expiry per attacker that may hold the same request)',
-                 'excluded by construction (asserted separately by the probe target c64_stripped_orphan, suspected genuine defect): fetching the genuine tx as a missing '
-                 'parent by txid after a witness-stripped copy of it was stored as an orphan',
+                 'closing modes: A = honest wtxid announcement (always asserted); A2 = txid announcement by the honest txid-relay peer and B = fetch as missing parent of an '
+                 'announced child are asserted only if no same-txid copy was ever delivered while the parent was unknown (copy stored as orphan): for that state the '
+                 'unchanged code has two accepted genuine low-severity defects (known_findings.txt), asserted by the deterministic probe stage c64_stripped_orphan',
                  'a failure is re-run under 3 other RNG salts (rolling bloom filters) and only counts if it reproduces in all of them'],
  'stages': [gen('vh_c64', 'c64_malleated', 560, 9000, min_cases_quick=32, max_seconds_quick=300, max_seconds_thorough=2400,
                 floors={'variant-before-genuine': 0.5, 'variant-as-orphan': 0.1, 'closing-mode-A': 0.3, 'closing-mode-B': 0.06, 'closing-mode-A2': 0.03, 'variant-delivered:stripped': 0.08,
@@ -19,6 +20,6 @@ SPEC = {'level': 'exploration',
 
 META = {'level_text': 'Generated histories in which attacking wtxid-relay peers announce, deliver or answer with same-txid variants of a valid transaction (stripped, invalid, '
                'non-standard witness; also as orphans while the parent is unknown), stall or disconnect, with blocks and reorgs resetting the filters; then an honest '
-               'peer announces the genuine transaction (or its child, so that the genuine one is fetched as missing parent) and it must be requested, validated and '
-               'enter the mempool within the scheduling bound. End-to-end through PeerManager, TxDownloadManager, orphanage and the real mempool. Exploration.',
+               'peer announces the genuine transaction by wtxid, or by txid (legacy peer), or announces its child (genuine tx fetched as missing parent), and it must be '
+               'requested, validated and enter the mempool within the scheduling bound. A 4-scenario deterministic probe documents two known findings of the txid-keyed paths. End-to-end through PeerManager, TxDownloadManager, orphanage and the real mempool. Exploration.',
  'technique': 'stateful property-based testing with a bounded-liveness oracle and re-salted reproduction of suspected violations'}
